@@ -1,8 +1,9 @@
 """C12 — dataset tree consistency under histories of edits and copies; quoting laws.
 Proof: lean/Props/C12.lean.  Tie: `_quote`/`unquote` vs the Lean model exhaustively on short strings +
 random long ones; random operation histories over several live handles on the real model.py classes vs the
-Lean store (`c12-run`), every handle dumped after every operation.  Oracle: the invariant, identity
-separation and the frame condition evaluated directly on the real objects."""
+Lean store (`c12-run`), every handle dumped after every operation, lookups (`obj[key]`, dotted fall-back included)
+as operations of the history and after every operation.  Oracle: the invariant, identity separation, the frame
+condition, `dataset[v.id] is v` and history independence of every lookup, evaluated directly on the real objects."""
 import copy
 import re
 
@@ -231,6 +232,100 @@ def observe(fns, o):
     return "[k %s][c %s][w %s][g %s]" % (ks, ch, wk, gv)
 
 
+def below(M, o, prefix=()):
+    """every object strictly below a container, pre-order over _dict (hidden children included), with the names
+    on the way"""
+    out = []
+    if is_cont(M, o):
+        for c in o._dict.values():
+            p = prefix + (c.name,)
+            out.append((p, c))
+            out.extend(below(M, c, p))
+    return out
+
+
+def do_lookup(obj, key):
+    """obj[key] -> ("ok", result) / ("err", class name)"""
+    try:
+        return ("ok", obj[key])
+    except (KeyError, TypeError, IndexError) as e:
+        return ("err", type(e).__name__)
+    except Exception as e:
+        return ("err", "escaped:" + type(e).__name__)
+
+
+def found_str(M, res, number):
+    """canonical text of a lookup result; `number(obj)` is the object's number when it belongs to the tree / store"""
+    if res[0] == "err":
+        return res[1]
+    r = res[1]
+    n = number(r)
+    if n is not None:
+        return "o%d" % n
+    if type(r) is M.BaseType:
+        attrs = sorted("(%s %s)" % (hx(a), aval(v)) for a, v in r.attributes.items())
+        return "(derived %s %s (a %s) %s)" % (hx(r.name), hx(r.id), " ".join(attrs), ddump(r._data))
+    return "?fresh:" + type(r).__name__
+
+
+def all_pairs(M, root):
+    """(container A, key) for every container A of the tree and every v below it: v's id and the dotted names
+    from A to v"""
+    objs = []
+    traverse(M, root, objs)
+    out = []
+    for a in objs:
+        if is_cont(M, a):
+            for p, v in below(M, a):
+                out.append((a, v.id))
+                out.append((a, ".".join(p)))
+    return out
+
+
+def lookups_text(M, root, number):
+    res = [found_str(M, do_lookup(a, key), number) for a, key in all_pairs(M, root)]
+    return "[L " + " ".join("%s,%s" % (res[i], res[i + 1]) for i in range(0, len(res), 2)) + "]"
+
+
+def rebuild(M, o):
+    """the same tree built from nothing: fresh objects, no history (names are stored quoted, so the constructors
+    keep them)"""
+    k = kind_of(M, o)
+    if k == "base":
+        c = M.BaseType(o.name, o._data)
+    elif k == "seq":
+        c = M.SequenceType(o.name, o._data)
+    else:
+        c = type(o)(o.name)
+    c.attributes = dict(o.attributes)
+    c._id = o._id
+    if is_cont(M, o):
+        for key, child in o._dict.items():
+            c._dict[key] = rebuild(M, child)
+        c._visible_keys = list(o._visible_keys)
+    return c
+
+
+def history_independence_problems(M, root, extra=()):
+    """every lookup on the tree as it is now answers like the same lookup on a tree of the same shape built from
+    nothing (position of the answer in the tree / description of a derived variable / exception class)"""
+    twin = rebuild(M, root)
+    a, b = [], []
+    traverse(M, root, a)
+    traverse(M, twin, b)
+    na = {id(o): i for i, o in enumerate(a)}
+    nb = {id(o): i for i, o in enumerate(b)}
+    bad = []
+    queries = [(na[id(x)], key) for x, key in all_pairs(M, root)] + [(na[id(x)], key) for x, key in extra]
+    for i, key in queries:
+        ra = found_str(M, do_lookup(a[i], key), lambda r: na.get(id(r)))
+        rb = found_str(M, do_lookup(b[i], key), lambda r: nb.get(id(r)))
+        if ra != rb:
+            bad.append(("%r[%r] answers %s; the same tree built without this history answers %s"
+                        % (a[i].id, key, ra, rb), ra, rb))
+    return bad
+
+
 # ------------------------------------------------------------------------------------------------
 # the direct oracle on real objects
 def invariant_problems(fns, root):
@@ -277,6 +372,10 @@ def invariant_problems(fns, root):
                 continue
             if r is not v:
                 bad.append("get_var(dataset, %r) is not that variable" % v.id)
+            res = do_lookup(root, v.id)
+            if res[0] != "ok" or res[1] is not v:
+                bad.append("dataset[%r] is not the variable with that id (%s)"
+                           % (v.id, res[1] if res[0] == "err" else "another object, id %r" % getattr(res[1], "id", None)))
     return bad
 
 
@@ -345,6 +444,15 @@ class World(object):
                 _, h, path, k, v = op
                 self.nav(h, path).attributes[k] = v
                 return "ok"
+            if t == "lookup":
+                _, h, path, key = op
+                self.last = None
+                a = self.nav(h, path)
+                self.last_target = a
+                self.last = do_lookup(a, key)
+                if self.last[0] == "err":
+                    return self.last[1]
+                return "L"
         except (KeyError, TypeError, IndexError) as e:
             return type(e).__name__
         except Exception as e:
@@ -358,14 +466,21 @@ class World(object):
             traverse(M, self.handles[i], out)
         return out
 
-    def dump(self, inv_ok):
-        M = self.fns[0]
+    def numbering(self):
         ids = [id(o) for o in self.all_objs()]
         first = {}
         for n, i in enumerate(ids):
             first.setdefault(i, n)
+        return first
+
+    def dump(self, inv_ok, lookups=True):
+        M = self.fns[0]
+        first = self.numbering()
         canon = lambda o: first[id(o)]
-        hs = ["h%d=%s%s" % (i, odump(M, self.handles[i], canon), observe(self.fns, self.handles[i])) for i in self.live()]
+        number = lambda o: first.get(id(o))
+        hs = ["h%d=%s%s%s" % (i, odump(M, self.handles[i], canon), observe(self.fns, self.handles[i]),
+                              lookups_text(M, self.handles[i], number) if lookups else "")
+              for i in self.live()]
         return "inv=%d %s" % (1 if inv_ok else 0, " ".join(hs))
 
 
@@ -386,12 +501,16 @@ def op_sexp(op):
         return "(setdata %d %s %d)" % (op[1], P(op[2]), op[3])
     if t == "setattr":
         return "(setattr %d %s %s %d)" % (op[1], P(op[2]), sx(op[3]), op[4])
+    if t == "lookup":
+        return "(lookup %d %s %s)" % (op[1], P(op[2]), sx(op[3]))
     raise ValueError(op)
 
 
-def run_history(fns, ops, fail=None):
-    """apply ops on the real classes; returns (expected driver text per step, problems) where problems
-    is a list of (step, what, observed, expected).  Stops after the first step with problems."""
+def run_history(fns, ops, lookups=True):
+    """apply ops on the real classes; returns (expected driver text per step, problems, world) where problems
+    is a list of (step, what, observed, expected).  Stops after the first step with problems.
+    lookups=False: `ops` holds no lookup operations and nothing is looked up between the operations either (the
+    per-step text then has no [L …] part): the run a memo never sees."""
     M, _quote, unquote, walk, get_var = fns
     w = World(fns)
     steps = []
@@ -408,7 +527,10 @@ def run_history(fns, ops, fail=None):
         if outcome.startswith("escaped") or outcome == "bad-op":
             problems.append((n, "operation %s raised outside the documented exception classes" % op[0], outcome,
                              "ok / KeyError / TypeError / IndexError"))
-        # frame
+        if op[0] == "lookup" and outcome == "L" and w.last[0] == "err" and w.last[1].startswith("escaped"):
+            problems.append((n, "lookup %r raised outside the documented exception classes" % (op[3],), w.last[1],
+                             "a variable / KeyError / TypeError / IndexError"))
+        # frame (a lookup writes through nothing)
         touched = set()
         if outcome == "ok" and op[0] in ("set", "del", "setdata", "setattr"):
             touched.add(op[1])
@@ -420,7 +542,7 @@ def run_history(fns, ops, fail=None):
             if w.handles[i] is None or snapshot(M, w.handles[i]) != snap:
                 problems.append((n, "%s through handle %s changed what is seen through handle %d%s"
                                  % (op[0], op[1] if len(op) > 1 else "-", i,
-                                    "" if outcome == "ok" else " although it raised " + outcome),
+                                    "" if outcome in ("ok", "L") else " although it raised " + outcome),
                                  "changed", "unchanged"))
         # invariant + separation
         inv_ok = True
@@ -446,10 +568,55 @@ def run_history(fns, ops, fail=None):
                     problems.append((n, "copy does not share the data objects of its source", "different", "same"))
                 if any(a.attributes is b.attributes for a, b in zip(so, res)):
                     problems.append((n, "copy shares an attributes dict with its source", "shared", "copied"))
-        steps.append("%s %s" % (outcome, w.dump(inv_ok)))
+        # lookups answer from the tree as it is, whatever was looked up or edited before
+        if lookups and inv_ok and not problems:
+            for i in w.live():
+                extra = ()
+                if op[0] == "lookup" and outcome == "L" and i == op[1]:
+                    extra = ((w.last_target, op[3]),)
+                for (what, obs, exp) in history_independence_problems(M, w.handles[i], extra):
+                    problems.append((n, "lookup on handle %d depends on the history: %s" % (i, what), obs, exp))
+                    break
+        if op[0] == "lookup":
+            first = w.numbering()
+            head = "L:" + (found_str(M, w.last, lambda o: first.get(id(o))) if outcome == "L" else outcome)
+        else:
+            head = outcome
+        steps.append("%s %s" % (head, w.dump(inv_ok, lookups)))
         if problems:
             break
     return steps, problems, w
+
+
+def strip_lookups(ops):
+    return [op for op in ops if op[0] != "lookup"]
+
+
+def interleaving_problems(fns, ops, steps):
+    """the same edits without any lookup (neither the explicit ones nor the ones made after every operation): every
+    edit must have the same outcome and leave the same store, and at the end every lookup must answer the same"""
+    M = fns[0]
+    plain = strip_lookups(ops)
+    psteps, pproblems, pw = run_history(fns, plain, lookups=False)
+    if pproblems:
+        return []            # reported by the run with lookups as well, or by the witness run
+    cut = lambda t: re.sub(r"\[L [^\]]*\]", "", t)
+    with_l = [cut(st) for op, st in zip(ops, steps) if op[0] != "lookup"]
+    bad = []
+    for k, (a, b) in enumerate(zip(with_l, psteps)):
+        if a != b:
+            bad.append((len(ops) - 1, "edit %d (%s) leaves another store when lookups were interleaved before it"
+                        % (k, plain[k][0]), a[:200], b[:200]))
+            return bad
+    if len(steps) == len(ops) and len(psteps) == len(plain) and ops:
+        first = pw.numbering()
+        number = lambda o: first.get(id(o))
+        final_plain = " ".join(lookups_text(M, pw.handles[i], number) for i in pw.live())
+        final_with = " ".join(re.findall(r"\[L [^\]]*\]", steps[-1]))
+        if final_plain != final_with:
+            bad.append((len(ops) - 1, "after the same edits the lookups answer differently when lookups were "
+                        "interleaved", final_with[:300], final_plain[:300]))
+    return bad
 
 
 # ------------------------------------------------------------------------------------------------
@@ -492,13 +659,89 @@ def gen_history(fns, rng, maxlen):
                 o = w.nav(h, path)
         return path, o
 
+    ghosts = []      # (handle, raw path to a container, key): looked up before an edit, to be looked up again later
+
+    def cont_paths(h):
+        """raw paths to every container below handle h"""
+        out = [[]]
+        for p, v in below(M, w.handles[h]):
+            if is_cont(M, v):
+                out.append([unquote(k) for k in p])
+        return out
+
+    def random_key(a):
+        """a key to look up on container a: an id / dotted path of something below it (as stored, unquoted, with a
+        foreign prefix, cut short), or a name that may not be there"""
+        bl = below(M, a)
+        q = rng.random()
+        if bl and q < 0.8:
+            p, v = rng.choice(bl)
+            f = rng.random()
+            if f < 0.35:
+                return v.id
+            if f < 0.6:
+                return ".".join(p)
+            if f < 0.75:
+                return ".".join(unquote(k) for k in p)
+            if f < 0.85:
+                return rng.choice(pool) + "." + ".".join(p)
+            if f < 0.93:
+                return v.id + "." + rng.choice(pool)
+            return ".".join(p[1:]) if len(p) > 1 else "." + p[0]
+        if q < 0.9:
+            return rng.choice(pool)
+        return rng.choice(["", ".", rng.choice(pool) + "." + rng.choice(pool), "zz"])
+
+    def lookup_op():
+        live = w.live()
+        if ghosts and rng.random() < 0.4:
+            h, path, key = rng.choice(ghosts)
+            if w.handles[h] is not None:
+                do(("lookup", h, path, key))
+                return
+        conts = [h for h in live if is_cont(M, w.handles[h])]
+        if not conts:
+            return
+        h = rng.choice(conts)
+        path = rng.choice(cont_paths(h))
+        do(("lookup", h, path, random_key(w.nav(h, path))))
+
+    def remember(h):
+        """before an edit through handle h: look some ids up (a memo would be filled now) and keep them for later"""
+        if w.handles[h] is None or not is_cont(M, w.handles[h]):
+            return []
+        mine = []
+        for path in cont_paths(h):
+            a = w.nav(h, path)
+            for p, v in below(M, a):
+                mine.append((h, path, v.id))
+                mine.append((h, path, ".".join(p)))
+        rng.shuffle(mine)
+        mine = mine[: rng.randint(1, 3)]
+        for g in mine:
+            if rng.random() < 0.5 and len(ops) < n:
+                do(("lookup",) + g)
+        ghosts.extend(mine)
+        del ghosts[:-12]
+        return mine
+
     n = rng.randint(6, maxlen)
     if rng.random() < 0.9:
         do(("new", "dataset", rng.choice(pool), 0), None)
         w.rawname[-1] = None
+    pending = []
     while len(ops) < n:
         live = w.live()
+        if pending and rng.random() < 0.7:
+            g = pending.pop()
+            if w.handles[g[0]] is not None:
+                do(("lookup",) + g)
+            continue
         r = rng.random()
+        if r < 0.1:
+            lookup_op()
+            continue
+        r = (r - 0.1) / 0.9
         if not live or r < 0.22:
             kind = rng.choice(["base", "base", "base", "struct", "seq", "grid"])
             name = rng.choice(pool)
@@ -515,6 +758,10 @@ def gen_history(fns, rng, maxlen):
             conts = [h for h in w.live()[:-1] if is_cont(M, w.handles[h])]
             if conts and rng.random() < 0.85 and len(ops) < n:
                 h = rng.choice(conts)
+                if rng.random() < 0.4:
+                    pending = remember(h)
+                    if len(ops) >= n:
+                        break
                 path, o = pick_obj(h, want_cont=True)
                 if is_cont(M, o):
                     key = name if rng.random() < 0.93 else rng.choice(pool)
@@ -522,6 +769,10 @@ def gen_history(fns, rng, maxlen):
             continue
         h = rng.choice(live)
         root = w.handles[h]
+        if rng.random() < 0.5:
+            pending = remember(h)
+            if len(ops) >= n:
+                break
         if r < 0.32:          # move an existing root handle into a container (subtree insertion)
             srcs = [s for s in live if s != h and not isinstance(w.handles[s], M.DatasetType)]
             if srcs and is_cont(M, root):
@@ -537,6 +788,8 @@ def gen_history(fns, rng, maxlen):
                     key = rng.choice(list(o._dict.keys()))
                     if rng.random() < 0.15:
                         key = unquote(key)
+                    elif rng.random() < 0.1 and below(M, o):
+                        key = ".".join(rng.choice(below(M, o))[0])      # a dotted path is not a key of _dict
                 else:
                     key = rng.choice(pool)
                 do(("del", h, path, key))
@@ -594,11 +847,18 @@ def history_case(ops, step=None):
     return {"kind": "history", "ops": [list(op) for op in ops], "step": step}
 
 
+def history_problems(fns, ops):
+    steps, problems, w = run_history(fns, ops)
+    if not problems:
+        problems = interleaving_problems(fns, ops, steps)
+    return steps, problems, w
+
+
 def shrink(fns, ops, what):
     """truncate after the failing step, then drop ops that neither create nor consume handles"""
     def fails(o):
         try:
-            _, pr, _ = run_history(fns, o)
+            _, pr, _ = history_problems(fns, o)
         except Exception:
             return None
         return pr[0] if pr else None
@@ -608,7 +868,7 @@ def shrink(fns, ops, what):
     ops = ops[: p[0] + 1]
     i = len(ops) - 2
     while i >= 0:
-        if ops[i][0] in ("del", "setdata", "setattr"):
+        if ops[i][0] in ("del", "setdata", "setattr", "lookup"):
             cand = ops[:i] + ops[i + 1:]
             q = fails(cand)
             if q is not None:
@@ -626,7 +886,7 @@ def explore_histories(ctx, fns, tier, search=False):
     reported = 0
     for hno in range(nhist):
         ops = gen_history(fns, rng, maxlen)
-        steps, problems, w = run_history(fns, ops)
+        steps, problems, w = history_problems(fns, ops)
         if problems:
             if reported < 5:
                 small, p = shrink(fns, ops, problems[0][1])
@@ -644,7 +904,10 @@ def explore_histories(ctx, fns, tier, search=False):
                                                                    else ">25"),
                   sample=history_case(ops) if hno < 2 else None)
         for (op, st) in zip(ops, steps):
-            ctx.tags["op:%s:%s" % (op[0], st.split(" ", 1)[0])] += 1
+            head = st.split(" ", 1)[0]
+            if op[0] == "lookup":
+                head = "found" if head.startswith("L:o") else "derived" if head.startswith("L:(") else head[2:]
+            ctx.tags["op:%s:%s" % (op[0], head)] += 1
         ctx.tags["depth:%d" % depth] += 1
     # correspondence: the model prints the same steps; `outside` ends the comparison of that history
     outs = common.run_driver([c[0] for c in cases])
@@ -705,7 +968,7 @@ WITNESSES = [
 def explore(ctx, fns, tier, search=False):
     explore_quote(ctx, fns, tier, search)
     for ops in WITNESSES:
-        steps, problems, w = run_history(fns, ops)
+        steps, problems, w = history_problems(fns, ops)
         if problems:
             p = problems[0]
             ctx.oracle_fail(p[1], history_case(ops[: p[0] + 1], p[0]), p[2], p[3], size=len(ops))
@@ -718,7 +981,9 @@ def run(ctx):
                 "operation sequences (<= 25 ops quick, <= 60 thorough) over {new, set/replace (moving a root under a "
                 "container at a path), delete, copy, select-by-tuple, assign data, set attribute} on several live "
                 "handles, names from a pool with blanks, brackets, &, %, non-ASCII and 'dap4' prefixes, never '.' or "
-                "'/'; a quoting case is non-trivial when quoting changes the name, a history when it has more than 3 "
+                "'/'; plus lookup operations (obj[key]: ids, relative dotted paths, unquoted / foreign-prefixed / cut "
+                "forms, ghost ids of deleted variables) at random positions and before+after edits, and after every "
+                "operation A[v.id] and A[relative path] for every container A and every v below it on every handle; a quoting case is non-trivial when quoting changes the name, a history when it has more than 3 "
                 "ops; distinct by input")
     ctx.assumptions = ["Python's UTF-8 codec and urllib.parse.quote/unquote (modelled bytewise) are trusted",
                        "data objects are symbolic stand-ins: the tree code only stores, indexes and copies them",
@@ -737,7 +1002,7 @@ def replay(payload):
     case = payload["failure"]["case"]
     if case.get("kind") == "history":
         ops = [tuple(o) for o in case["ops"]]
-        _, problems, _ = run_history(fns, ops)
+        _, problems, _ = history_problems(fns, ops)
         return not problems
     if case.get("kind") in ("quote", "unquote"):
         class C(object):
